@@ -48,6 +48,7 @@ def build(chk):
     c_findvwLTE(chk)
     c_template_matching(chk)
     c_eqWall(chk)
+    c_maxAl(chk)
 
 
 def c_findTm(chk):
@@ -433,6 +434,64 @@ def c_eqWall(chk):
         for p in sel(paths, "raise"):
             if p.exc.cls not in ("WallGoError",):
                 chk.undecided.append(f"solveAlpha raises {p.exc.cls}")
+
+
+def c_maxAl(chk):
+    """maxAl: largest alN with a hybrid LTE solution at the Jouguet velocity.  Its residual  matching(alN)  is the LTE condition of _eqWall
+    evaluated for the wall AT the shock front (v+ vw = cs^2, vw = vJ(alN), v- = cb): the state behind the (infinitely thin) shock has
+    enthalpy W = w+/wN fixed by energy- and momentum-flux conservation across the front with the template EOS, the strength seen by the
+    wall is alpha+(W) (the relation of wFromAlpha), and psi = psiN W^(nu/mu - 1).  The result is a bracketed root of that residual or one of
+    the two limits."""
+    from wgvc import stubs
+    fn = f"{TQ}.maxAl"
+    a_ = real("alNx")
+    VJ = specfun("templateVJ")
+    cs2 = real("cs2")
+    reg = {"HydrodynamicsTemplateModel.findJouguetVelocity": lambda it, so, a, k: VJ(a[0])}
+    vwj = VJ(a_)
+    vp = cs2 / vwj
+    W = real("Wfront")
+    pre = POS + [Gt(vwj, 0), Lt(vwj, 1), Gt(cs2, 0), Lt(cs2, vwj), Eq((mu_ - 1) * cs2, 1), Gt(W, 0),
+                 Eq(gammaSq(vwj) * vwj, W * gammaSq(vp) * vp)]
+
+    def env(it):
+        for c in pre:
+            it.assume(c)
+        t = make_template()
+        return {"self": t, "vm": cb}, {}
+    for k, q in enumerate(sel(chk.summarize_closure(MODULE, "HydrodynamicsTemplateModel.maxAl", "matching", env, lambda it, cap: ([a_], {}), registry=reg))):
+        al = (mu_ - nu_) / (3 * mu_) + (a_ - (mu_ - nu_) / (3 * mu_)) / W
+        E = (gammaSq(vp) / gammaSq(cb))**(nu_ / 2) * psi * W**(nu_ / mu_ - 1)
+        chk.vc(f"maxAl.matching.front-momentum-flux.{k}", q.pc, Eq(gammaSq(vwj) * vwj**2 - W * gammaSq(vp) * vp**2, (W - 1) / mu_), func=fn + ".<matching>", kind="lemma")
+        chk.vc(f"maxAl.matching.alpha-plus-relation.{k}", q.pc, Eq(((1 - 3 * al) * mu_ - nu_) * W, (1 - 3 * a_) * mu_ - nu_), func=fn + ".<matching>", kind="lemma")
+        chk.vc(f"maxAl.matching.is-eqWall-at-the-front.{k}", q.pc,
+               Eq(q.value, vp * cb * al / (1 - (nu_ - 1) * vp * cb) - (1 - 3 * al - E) / (3 * nu_)), func=fn + ".<matching>")
+        chk.canary(f"maxAl.matching.is-eqWall-at-the-front.{k}", q.pc,
+                   Eq(q.value, vp * cb * al / (1 - (nu_ - 1) * vp * cb) + (1 - 3 * al - E) / (3 * nu_)), func=fn + ".<matching>")
+    # body
+    up = real("upperLimit")
+    MATCH = specfun("maxAlMatching")
+
+    def mk(it):
+        for c in POS + [Gt(up, (1 - psi) / 3)]:
+            it.assume(c)
+        return make_template(), [up], {}, {}
+    from wgvc.interp import Closure
+    paths = chk.summarize(MODULE, "HydrodynamicsTemplateModel.maxAl", mk, externals=stubs.EXTERNALS,
+                          registry={"HydrodynamicsTemplateModel.maxAl.<matching>": None} if False else None,
+                          config={"closure_contracts": {"matching": lambda it, a, k: MATCH(a[0])}})
+    rets = sel(paths)
+    if not rets:
+        chk.undecided.append("maxAl: no returning path")
+    low = (1 - psi) / 3
+    for i, p in enumerate(rets):
+        rs = [e for e in p.events if e.get("kind") == "root_scalar"]
+        if rs and "root" in rs[-1]:
+            e = rs[-1]
+            chk.vc(f"maxAl.result-is-bracketed-root.{i}", p.pc,
+                   And(Eq(p.value, e["root"]), Ge(e["a"], low), Le(e["b"], up), Eq(e["xtol"], real("atol")), Eq(e["rtol"], real("rtol"))), func=fn)
+        else:
+            chk.vc(f"maxAl.limit-returned.{i}", p.pc, Or(Eq(p.value, up), Eq(p.value, low)), func=fn)
 
 
 def c_init(chk):
